@@ -19,9 +19,14 @@ package object
 //@ commute 1
 
 //@ func NewBuiltinsModule
-//@ props C05
+//@ props C05 C11
 //@ commute 1
 //@ commute 2
+//@ requires contents != nil
+//@ invariant 1: builtins != nil && !allocated(builtins) && forallA(k, string, haskey(builtins, k) == seen(k) && (seen(k) ==> haskey(contents, k) && builtins[k] == contents[k]))
+//@ invariant 2: m != nil && !allocated(m) && m.builtins == builtins && builtins != nil && !allocated(builtins) && forallA(k, string, haskey(builtins, k) == haskey(contents, k) && (haskey(contents, k) ==> builtins[k] == contents[k])) && forallA(k, string, seen(k) && typeof(builtins[k]) == *Builtin && ref(builtins[k]) != nil ==> builtins[k].(*Builtin).module == m)
+//@ ensures[C11.module.backref] result != nil && fresh(result) && forallA(k, string, haskey(contents, k) && typeof(contents[k]) == *Builtin && ref(contents[k]) != nil ==> contents[k].(*Builtin).module == result)
+//@ ensures[C11.module.contents] forallA(k, string, haskey(result.builtins, k) == haskey(contents, k) && (haskey(contents, k) ==> result.builtins[k] == contents[k]))
 
 // ---- sorted enumeration: the result is a function of the map's key set -------------------------------------
 // sort.Strings: assumed contract (sorted, every element is an old element, distinctness preserved).
@@ -235,3 +240,37 @@ package object
 //@ props C10
 //@ dyncall[C10.spawn.argscopy] SpawnFunc: fresh(arg2) && len(arg2) == len(args) && forall(k, 0, len(args), arg2[k] == args[k])
 //@ dyncall[C10.spawn.ctx] SpawnFunc: arg0 == ctx
+
+// ---- C10: the channel wrappers hand values through unchanged ------------------------------------------------------
+// Go's channel semantics (exactly once, FIFO per sender, closed channels) is assumed; what is proved is that the
+// wrappers use the Go channel faithfully: Send offers exactly the given value, once, on the wrapped channel;
+// Receive / Next return exactly what the channel delivered, Nil for a closed channel, and the context's outcome
+// otherwise.
+//@ func (*Chan).Send
+//@ props C10
+//@ requires c != nil && ctx != nil
+//@ chansend[C10.send.exact]: ch == c.value && val == value
+//@ ensures[C10.send.ok] selindex() == 1 ==> err == nil
+
+//@ func (*Chan).Receive
+//@ props C10
+//@ requires c != nil && ctx != nil
+//@ ensures[C10.recv.value] selindex() == 1 && selok() ==> result0 == selrecv(1) && result1 == nil
+//@ ensures[C10.recv.closed] selindex() == 1 && !selok() ==> result0 == Nil && result1 == nil
+//@ ensures[C10.recv.cancel] selindex() == 0 ==> result0 == nil
+
+// C11: a module's attribute tables and a builtin's back-reference to its module (__module__) are set up together by
+// the listed constructors (NewBuiltinsModule points every builtin it is given at the new module) and changed only
+// by Override / UseGlobals; any other code that builds or rewires a module must be added here with its own
+// argument for why `builtin.__module__` is still the module the script reached the builtin through.
+//@ scan[C11.module.writers] C11 fieldwriters Module.*: object.(*Module).Override object.(*Module).UseGlobals object.NewBuiltinsModule object.NewModule
+//@ scan[C11.builtin.module.writers] C11 fieldwriters Builtin.module: object.NewBuiltin object.NewBuiltinsModule object.NewNoopBuiltin
+
+// Next (iteration over a channel): a delivered value - whatever it is, including a nil object that was sent - is
+// returned with true; only a closed channel or a finished context ends the iteration.
+//@ func (*Chan).Next
+//@ props C10
+//@ requires c != nil && ctx != nil
+//@ ensures[C10.next.value] selindex() == 1 && selok() ==> result0 == selrecv(1) && result1
+//@ ensures[C10.next.closed] selindex() == 1 && !selok() ==> result0 == nil && !result1
+//@ ensures[C10.next.cancel] selindex() == 0 ==> result0 == nil && !result1
